@@ -409,7 +409,7 @@ def filter_step(ctx, case, src, cat, raw, base_keep, stmts_now, form, in_place, 
 
 
 VARIANTS_SINGLE = ('str', 'str-twice', 'ctor-str', 'str-preview-then-apply', 'ctor-str-then-explicit')
-VARIANTS_LIST = ('list', 'tuple-reversed', 'one-by-one', 'twice', 'ctor', 'preview-then-apply', 'ctor-then-explicit')
+VARIANTS_LIST = ('list', 'tuple-reversed', 'one-by-one', 'twice', 'ctor', 'preview-then-apply', 'ctor-then-explicit', 'caller-list-reused')
 
 
 def run_scenario(ctx, events, stmts, variant, in_place):
@@ -455,6 +455,28 @@ def run_scenario(ctx, events, stmts, variant, in_place):
         form = 'str' if variant.startswith('ctor-str') else 'list'
         cat = src.fresh(filters=stmts[0] if form == 'str' else list(stmts))
         filter_step(ctx, case, src, cat, src.raw, every, stmts, form, in_place, stmts, w)
+    elif variant == 'caller-list-reused':
+        # the CALLER's list object: used for a preview, the preview is filtered further in place, a catalog is built with
+        # filters=<the list> and filtered further in place; the list must still say what the caller wrote, and using it again
+        # on a fresh catalog must keep exactly the reference subset
+        lst = list(stmts)
+        extra = 'depth >= -1.0'                                  # true for every event of the alphabet
+        try:
+            r = start().filter(lst, in_place=False)
+            r.filter(extra, in_place=True)
+            r.filter([extra], in_place=True)
+            c2 = src.fresh(filters=lst)
+            c2.filter(in_place=True)
+            c2.filter(extra, in_place=True)
+            c2.filter([extra], in_place=True)
+        except Exception as e:
+            ctx.fail(f'CSEPCatalog.filter[list]|{type(e).__name__}|caller-list-history', f'{w}: {type(e).__name__}: {e}', case)
+            return keep
+        ctx.calls += 7
+        if lst != stmts:
+            ctx.fail('CSEPCatalog.filter[list]|callers-statement-list-modified|caller-list-history',
+                     f'{w}: the list passed by the caller was {stmts}, after further in-place filtering of the returned catalogs it is {lst}', case)
+        filter_step(ctx, case, src, start(), src.raw, every, lst, 'list', in_place, stmts, w + ' (same list object again)')
     elif variant == 'one-by-one':
         cat, raw, base = start(), src.raw, every
         for n, s in enumerate(stmts):
